@@ -38,12 +38,17 @@ func (c *Chain) forkChain(name string) *Chain {
 	s.cancelDone = nil
 	s.wrongTargetIncluded = map[common.Epoch]int{}
 	s.syncTargetsDone = map[common.Epoch]bool{0: true, 1: true, 2: true, 3: true} // no timed exits on the side branch
+	s.zeroKeys, s.zeroIndex = map[KeyNum]bool{}, map[common.ValidatorIndex]bool{}
 	s.justified = map[common.Epoch]bool{}
 	s.modeOf = map[common.Epoch]string{}
 	s.heldEpc, s.heldSt = nil, nil
 	s.branches = 1 << 20 // no nested branch points
 	s.Eth1HalfPattern, s.Phase0LeakMix, s.ZeroHashMerge, s.NoSkipBeforePhase0Deposit = false, false, false, false
 	s.VoteAlways = true
+	s.isSide = true
+	s.SyncSeat = false
+	s.Protected = map[common.ValidatorIndex]bool{}
+	s.NoDoubleVotes = true
 	return &s
 }
 
@@ -102,4 +107,40 @@ func (c *Chain) DepositForkEpisode() {
 	c.Stats.Add("deposits_queued", 2)
 	c.depForkIndex, c.depForkKey, c.depForkArmed = index, ka, side.ValCount() > index
 	c.VoteAlways = true
+}
+
+// siblingBlock: block A (just applied on parent S) registered a new validator. A SIBLING block B on the same parent S, one or
+// two slots later, must carry the same deposits; it is processed with another Clone() of S's context, i.e. with the pubkey
+// cache that already learned the new key from A. B must add the validator too (the key is known to the cache, but not to S).
+func (c *Chain) siblingBlock(parent common.BeaconState, parentEpc *common.EpochsContext, parentID string, slotA common.Slot) {
+	c.siblingDone = true
+	side := c.forkChain("sibling")
+	side.St, side.Epc, side.StID = CopyState(parent), parentEpc.Clone(), parentID
+	side.epcTag = "branch=sibling_same_deposit"
+	side.attGenUpTo = slotA + 3 // no attestations on the sibling: only the deposits matter
+	side.Eth1HalfPattern = c.Eth1HalfPattern
+	side.halfY, side.halfPeriod = c.halfY, c.halfPeriod
+	before := side.ValCount()
+	c.Rec.Comment("sibling block: same parent " + parentID + " as the block above, same deposits, context cloned from the parent's")
+	for s := slotA + 1; s <= slotA+3 && side.Stats.Get("blocks") == 0; s++ {
+		if c.Spec.SlotToEpoch(s) != c.Spec.SlotToEpoch(slotA) {
+			break // stay inside the epoch (and the eth1 voting period) of block A
+		}
+		if _, err := side.Propose(s); err != nil {
+			c.problem("sibling block on %s: %v", parentID, err)
+			break
+		}
+	}
+	c.Problems = append(c.Problems, side.Problems...)
+	c.Stats.Add("live_ctx_diverged", side.Stats.Get("live_ctx_diverged"))
+	c.Stats.Add("honest_rejected", side.Stats.Get("honest_rejected"))
+	if side.Stats.Get("blocks") > 0 {
+		c.Stats.Inc("sibling_blocks")
+	}
+	if side.ValCount() > before {
+		c.Stats.Inc("sibling_block_same_new_deposit")
+	} else if c.Vars["sibling_tries"] < 3 {
+		c.Vars["sibling_tries"]++
+		c.siblingDone = false // try again at the next validator-adding block
+	}
 }
